@@ -327,11 +327,10 @@ func (k *Keys) Feed(begin bool, keys ...rune) {
 		k.buf = nil
 	}
 
-	if begin {
-		k.macroKeys = append(keyBuf, k.macroKeys...)
-	} else {
-		k.macroKeys = append(k.macroKeys, keyBuf...)
-	}
+	// Fed as if typed at this point, the keys also come before what remains of a macro
+	// being replayed (a macro invoked by a key of another macro): only the place of the
+	// keys already read differs between the two modes.
+	k.macroKeys = append(keyBuf, k.macroKeys...)
 }
 
 // addInput stores keys read on standard input outside of the main loop (while querying
